@@ -170,6 +170,17 @@ theorem formerr_on_bad_ecs (mw : S_ratelimitmw_Middleware) (ctx rw req orig : Op
   cases isBad <;> simp [Middleware_processLocationErr, callsOf, names, before]
 
 
+/-- Round 4 (after `fix: ratelimitmw: do not return the ecs error after answering it with formerr`):
+for a `BadECSError` the function returns what `errors.Annotate` makes of the error of `WriteMsg` —
+nil when the FORMERR was written — and never the original error, so the server does not follow the
+FORMERR with a SERVFAIL. -/
+theorem formerr_returns_write_error_only (mw : S_ratelimitmw_Middleware) (ctx rw req orig : Option String)
+    (resp werr ann : Option String) :
+    let r := Middleware_processLocationErr mw ctx rw req orig true resp werr ann
+    r.1 = ann ∧ callsOf "Annotate" r.2 = [[toString werr, "writing formerr resp: %w"]] ∧
+      "WithDeferred" ∉ names r.2 := by
+  simp [Middleware_processLocationErr, callsOf, names]
+
 /-! ## The two caches: `get`, `itemFromCache`, `toCacheKey`, `set` -/
 
 /-- A look-up that misses, or hits an entry stored for another host name (hash collision), yields
